@@ -8,7 +8,7 @@ CLAIMS = {
          "assumed: itertools.product (each tuple once, prefix-closed), random.seed/shuffle = a permutation determined by (seed, n), sorted+lemma SortedPermOfRange, executor/future contract (each submitted task invokes fn exactly once; result()/get() return that invocation's value), tuple/dict theory axioms, parallel=... 'ray' executor outside the subset; the cases branch of the core is C02's variant; fn is an arbitrary callable (may raise)"),
  "C02": ("Discharged for all inputs: parse_cases / parse_fn_args / case_runner normalise dict, tuple and scalar-per-case spellings to the same tuple of dicts and forward them unchanged to the core; an argument appearing in both cases and combos raises ValueError if and only if the name sets overlap, before the call log changes (nothing runs); _unflatten fills every grid position whose key is absent from the computed results with the placeholder (Rep with default all_nan); nan_like_result gives None for bool/str, full_like(nan) for dict/Dataset/DataArray, a tuple of nan arrays shaped by infer_shape per element for sequences and nan otherwise; for a pure case list in flat form (variant combo_runner_core@cases, loop invariants and cuts) there is exactly one call per case, with the case's own values looked up by name whatever order each dict lists its keys in, and the results are in case order for every shuffle seed. BOUNDED (not proved): the enumeration cases x sub-grid, the per-argument unions and the placeholder shape recursion of infer_shape are exercised by replay/C02.py on the real code (random distinct case sets over 1-3 arguments, 5 result kinds, shuffle on/off; nested shapes to depth 3 / width 3) as part of the quick check.",
          "assumed: isiterable model, xarray.full_like / numpy.broadcast_to as uninterpreted functions (broadcast_to assumed not to raise), dict-comprehension keys distinct; the cases branch of combo_runner_core has no loop invariants yet, so its calls/slots/unions claim is bounded only and is not counted in discharged"),
- "C03": ("Discharged on the real bodies of results_to_df, results_to_ds, combo_runner_to_ds (general and grid variants), case_runner_to_ds, Runner.run_combos/run_cases, parse_var_names, parse_var_dims (key set and defaults): every DataFrame row i is, key by key, setting i minus resources plus attrs plus the outputs of result i (a single output name stores the result itself), and with the core runner's contract (C01) setting i is exactly the kwargs of the call that returned result i, for every shuffle seed; in the Dataset (over an abstract model of xarray.Dataset holding coords/data_vars/attrs maps) every output variable has dims = swept argument names in order + its declared internal dims and data = asarray of its result component, every swept argument is a coordinate holding the swept values, each constant is a coordinate if it names a dimension of some variable and an attribute otherwise, extra attrs are kept, nothing else is recorded and resources never reach the builders; the wrappers forward the stored description unchanged and merge per-run constants over stored ones. BOUNDED: replay/C03.py (quick tier) checks ds.sel at every grid point and every DataFrame row on random grids, 1-2 outputs, internal dims, shuffle, via Runner.",
+ "C03": ("Discharged on the real bodies of results_to_df, results_to_ds, combo_runner_to_ds (general and grid variants), case_runner_to_ds, Runner.run_combos/run_cases, parse_var_names, parse_var_dims (key set and defaults), get_ndim_first (against the recursive spec function FirstLeaf): every DataFrame row i is, key by key, setting i minus resources plus attrs plus the outputs of result i (a single output name stores the result itself), and with the core runner's contract (C01) setting i is exactly the kwargs of the call that returned result i, for every shuffle seed; in the Dataset (over an abstract model of xarray.Dataset holding coords/data_vars/attrs maps) every output variable has dims = swept argument names in order + its declared internal dims and data = asarray of its result component, every swept argument is a coordinate holding the swept values, each constant is a coordinate if it names a dimension of some variable and an attribute otherwise, extra attrs are kept, nothing else is recorded and resources never reach the builders; the wrappers forward the stored description unchanged and merge per-run constants over stored ones. BOUNDED: replay/C03.py (quick tier) checks ds.sel at every grid point and every DataFrame row on random grids, 1-2 outputs, internal dims, shuffle, via Runner.",
          "assumed: xarray.Dataset(coords, data_vars) holds those maps and its dims are the dims of its variables, numpy.asarray/pandas.DataFrame as uninterpreted functions (that ds.sel returns the cell, i.e. numpy's nesting order = Rep order, is exercised only by the bounded replay), labelled outputs with var_names=None (xr.concat) assumed, case-sweep coordinates (sorted unions) bounded only, grouped-key spellings of var_dims bounded only; row dicts are mutated in place (aliasing with info['settings'], consumed afterwards)"),
  "C04": ("Contracts discharged on the real sow_combos, sow_cases, save_info, prepare, save_function_to_disk, parse_constants, grow (sequential and pooled), Crop.grow, grow_missing, load_info, _sync_info_from_disk, Reaper.__init__/_load and reap_combos: what is saved in the settings file (sorted combos, cases, batching, shuffle) is exactly what the Sower is driven with, in the shuffle order that is saved (constructor or sow-time); the Sower cuts the received stream into batches by offset/size (C07) and never touches results; grow(b) reads batch b, calls the function once per case in order (submission order for a pool) and writes exactly ResultPath(b) = tuple of those results, nothing else, nothing on failure, for any Crop object on the same directory; the Reaper enumerates result files 1..B in order; reap_combos replays the core runner with the saved combos/cases/shuffle. Lemma SowGrowReap composes these contracts (z3): at every sown position the reaped value equals the function's value for that grid point. BOUNDED: replay/C04.py runs 240 random end-to-end configurations on the real code (quick tier).",
          "assumed: pickle/cloudpickle round trip, fn deterministic, random.shuffle determined by (seed, n), the callback rule (induction over the runner's calls of Sower.__call__), lazy chain/map/next semantics of the Reaper (links the verified file order and _load contract to the t-th returned value), no MPI environment variables, raw crops (farmer-backed crops: C06); the nested result is that of a sweep over the combos sorted by argument name (documented behaviour of sow_combos)"),
@@ -52,7 +52,7 @@ CLAIMS = {
          "string obligations are decided by z3's sequence solver with cvc5 --strings-exp on unknowns"),
  "C08": ("Discharged on the real is_prepared, _sync_info_from_disk, calc_progress, num_sown_batches, num_results, is_ready_to_reap, missing_results, grow, Crop.grow, grow_missing, sow_combos/sow_cases: the reported counts are the numbers of visible batch/result files of the current file system, missing_results() is exactly the ascending, duplicate-free tuple of ids in 1..num_batches without a result file, is_ready_to_reap() is (results > 0 and results == sown batches), all without touching the file system; grow(b) changes only ResultPath(b) and records nothing unless every case returned; grow_missing grows exactly missing_results(); re-sowing leaves every result file as it was. Lemma (cvc5 finite sets with cardinality + z3): with the sowing complete and no stray result files, ready <=> nothing missing. BOUNDED: replay/C08.py random histories (quick tier).",
          "assumed: glob.glob+len = number of visible matching files (CountBatches/CountResults), filter/range model, os.path.isfile over the ghost file system, 'no stray result files' hypothesis, card([1..nb]) = nb; check_bad has no contract (bounded only); crash-free histories (crashes: C10)"),
- "C06": ("Forwarding and labelling obligations discharged on the real Crop.runner, Crop.parse_constants (the kwargs of every sown call are the sow-time constants over the "
+ "C06": ("Forwarding and labelling obligations discharged on the real parse_fn_farmer (a crop given a farmer runs the farmer's function, the farmer is kept as given), Crop.runner, Crop.parse_constants (the kwargs of every sown call are the sow-time constants over the "
          "Runner's stored constants over its resources: the precedence of a direct run_combos), sow_combos/sow_cases (the constants given when sowing are saved with the "
          "settings), reap_combos_to_ds (replays the saved combos/cases/shuffle through the same to_ds/to_df code as a direct run, with the saved constants over the "
          "description's constants, resources never recorded), reap_runner (passes the Runner's stored fn_args/var_names/var_dims/var_coords/constants/attrs, parse=False, "
